@@ -64,7 +64,12 @@ def power(x1: PolyLike, x2: PolyLike, **kwargs: Any) -> ndpoly:
     dtype = numpy.power(numpy.empty(0, dtype=x1.dtype), probe).dtype
     exponents = numpoly.aspolynomial(x2).tonumpy()
 
-    if numpy.any(exponents < 0) or numpy.any(exponents != numpy.rint(exponents.real)):
+    if (
+        numpy.any(exponents < 0)
+        or numpy.any(exponents != numpy.rint(exponents.real))
+        # (neither infinite nor beyond what can be counted down in a loop)
+        or not numpy.all(numpy.abs(exponents) < 2**62)
+    ):
         # negative or fractional powers only exist for numbers
         if not x1.isconstant():
             raise numpoly.FeatureNotSupported(
